@@ -152,11 +152,12 @@ Variable qeqb : Q -> Q -> bool.
 Variable exec : DB -> Q -> R.
 Variable apply : DB -> W -> DB.
 Variable raw_clears : bool.
+Variable aggr_flushes : bool.
 Hypothesis qeqb_eq : forall a b, qeqb a b = true -> a = b.
 
 Notation sess := (sess DB W Q R).
-Notation sstep := (sstep DB W Q R qeqb exec apply raw_clears).
-Notation srun := (srun DB W Q R qeqb exec apply raw_clears).
+Notation sstep := (sstep DB W Q R qeqb exec apply raw_clears aggr_flushes).
+Notation srun := (srun DB W Q R qeqb exec apply raw_clears aggr_flushes).
 Notation sflush := (sflush DB W Q R apply).
 Notation cold_run := (cold_run DB W Q R exec apply).
 
@@ -180,49 +181,79 @@ Qed.
 
 Theorem results_transparent_from : forall h (s : sess), sinv s ->
   (raw_clears = true \/ forallb (fun o => negb (is_raw W Q o)) h = true) ->
+  (aggr_flushes = true \/ forallb (fun o => negb (is_aggregate W Q o)) h = true) ->
   srun s h = cold_run (s_db _ _ _ _ s) (s_pending _ _ _ _ s) h.
 Proof.
-  induction h as [|o h IH]; intros s Hi Hraw; [reflexivity|].
+  induction h as [|o h IH]; intros s Hi Hraw Hagg; [reflexivity|].
   assert (Hraw' : raw_clears = true \/ forallb (fun o => negb (is_raw W Q o)) h = true).
   { destruct Hraw as [|H]; [left; assumption|right]. cbn in H. apply andb_prop in H. tauto. }
+  assert (Hagg' : aggr_flushes = true \/ forallb (fun o => negb (is_aggregate W Q o)) h = true).
+  { destruct Hagg as [|H]; [left; assumption|right]. cbn in H. apply andb_prop in H. tauto. }
   cbn [C05Memo.srun C05Memo.cold_run].
   pose proof (sflush_db s) as FD. pose proof (sflush_pending s) as FP. pose proof (sflush_inv s Hi) as FI.
-  destruct o as [q|w| | |w|w]; cbn [C05Memo.sstep C05Memo.cold_step].
+  destruct o as [q|q|w| | |w|w]; cbn [C05Memo.sstep C05Memo.cold_step].
   - (* query *)
     destruct (lookup Q R qeqb (s_cache _ _ _ _ (sflush s)) q) as [r|] eqn:L.
     + rewrite (slookup_inv _ _ _ _ FI L), FD. f_equal. rewrite <- FD, <- FP. apply IH; assumption.
     + rewrite FD. f_equal.
       specialize (IH (mksess DB W Q R (s_db _ _ _ _ (sflush s)) [] ((q, exec (s_db _ _ _ _ (sflush s)) q) :: s_cache _ _ _ _ (sflush s)))).
-      cbn in IH. rewrite FD in IH. apply IH; [|assumption]. unfold sinv. cbn. constructor; [reflexivity|]. rewrite <- FD. exact FI.
+      cbn in IH. rewrite FD in IH. apply IH; [|assumption|assumption]. unfold sinv. cbn. constructor; [reflexivity|]. rewrite <- FD. exact FI.
+  - (* aggregate: only with the flush in front (the proposed repair) *)
+    destruct Hagg as [Ha|Hn]; [|cbn in Hn; discriminate].
+    replace (if aggr_flushes then sflush s else s) with (sflush s) by (rewrite Ha; reflexivity).
+    destruct (lookup Q R qeqb (s_cache _ _ _ _ (sflush s)) q) as [r|] eqn:L.
+    + rewrite (slookup_inv _ _ _ _ FI L), FD. f_equal. rewrite <- FD, <- FP. apply IH; assumption.
+    + assert (FF : sflush (sflush s) = sflush s).
+      { unfold C05Memo.sflush at 1. rewrite FP. reflexivity. }
+      rewrite FF, FD. f_equal.
+      specialize (IH (mksess DB W Q R (s_db _ _ _ _ (sflush s)) [] ((q, exec (s_db _ _ _ _ (sflush s)) q) :: s_cache _ _ _ _ (sflush s)))).
+      cbn in IH. rewrite FD in IH. apply IH; [|assumption|assumption]. unfold sinv. cbn. constructor; [reflexivity|]. rewrite <- FD. exact FI.
   - (* modify *)
     f_equal. apply (IH (mksess DB W Q R (s_db _ _ _ _ s) (s_pending _ _ _ _ s ++ [w]) (s_cache _ _ _ _ s))); assumption.
   - (* flush *)
     f_equal. rewrite <- FD, <- FP. apply IH; assumption.
   - (* commit *)
-    f_equal. rewrite <- FD. apply (IH (mksess DB W Q R (s_db _ _ _ _ (sflush s)) [] [])); [constructor|assumption].
+    f_equal. rewrite <- FD. apply (IH (mksess DB W Q R (s_db _ _ _ _ (sflush s)) [] [])); [constructor|assumption|assumption].
   - (* bulk delete *)
-    f_equal. rewrite <- FD. apply (IH (mksess DB W Q R (apply (s_db _ _ _ _ (sflush s)) w) [] [])); [constructor|assumption].
+    f_equal. rewrite <- FD. apply (IH (mksess DB W Q R (apply (s_db _ _ _ _ (sflush s)) w) [] [])); [constructor|assumption|assumption].
   - (* raw write *)
     f_equal. rewrite <- FD.
     destruct Hraw as [Hc|Hn].
     + replace (if raw_clears then [] else s_cache DB W Q R (sflush s)) with (@nil (Q * R)) by (rewrite Hc; reflexivity).
-      apply (IH (mksess DB W Q R (apply (s_db _ _ _ _ (sflush s)) w) [] [])); [constructor|assumption].
+      apply (IH (mksess DB W Q R (apply (s_db _ _ _ _ (sflush s)) w) [] [])); [constructor|assumption|assumption].
     + cbn in Hn. discriminate.
 Qed.
 
 Theorem results_transparent : forall db h,
   (raw_clears = true \/ forallb (fun o => negb (is_raw W Q o)) h = true) ->
+  (aggr_flushes = true \/ forallb (fun o => negb (is_aggregate W Q o)) h = true) ->
   srun (mksess DB W Q R db [] []) h = cold_run db [] h.
-Proof. intros db h H. apply (results_transparent_from h (mksess DB W Q R db [] [])); [constructor|exact H]. Qed.
+Proof. intros db h H1 H2. apply (results_transparent_from h (mksess DB W Q R db [] [])); [constructor|exact H1|exact H2]. Qed.
 End SessionProofs.
 
 (* a raw write between two executions of one query: the second answer is the stale list *)
 Theorem results_stale_after_raw_write : forall DB W Q R (qeqb : Q -> Q -> bool) (exec : DB -> Q -> R) (apply : DB -> W -> DB) db q w,
   qeqb q q = true -> exec (apply db w) q <> exec db q ->
   let h := [SQuery W Q q; SRaw W Q w; SQuery W Q q] in
-  srun DB W Q R qeqb exec apply false (mksess DB W Q R db [] []) h <> cold_run DB W Q R exec apply db [] h /\
-  srun DB W Q R qeqb exec apply false (mksess DB W Q R db [] []) h = [Some (exec db q); None; Some (exec db q)].
+  forall aggr_flushes,
+  srun DB W Q R qeqb exec apply false aggr_flushes (mksess DB W Q R db [] []) h <> cold_run DB W Q R exec apply db [] h /\
+  srun DB W Q R qeqb exec apply false aggr_flushes (mksess DB W Q R db [] []) h = [Some (exec db q); None; Some (exec db q)].
 Proof.
-  intros DB W Q R qeqb exec apply db q w Hq Hne. cbv zeta. cbn. rewrite Hq. cbn. split; [|reflexivity].
+  intros DB W Q R qeqb exec apply db q w Hq Hne. cbv zeta. intro af. cbn. rewrite Hq. cbn. split; [|reflexivity].
+  intro E. inversion E. congruence.
+Qed.
+
+(* count() / sum() ... after an unflushed modification: Query._aggregate finds the old number in query_results because the
+   flush (which clears it) only happens inside _exec_sql, after the lookup *)
+Theorem aggregate_stale_after_unflushed_modification :
+  forall DB W Q R (qeqb : Q -> Q -> bool) (exec : DB -> Q -> R) (apply : DB -> W -> DB) db q w,
+  qeqb q q = true -> exec (apply db w) q <> exec db q ->
+  let h := [SAggregate W Q q; SModify W Q w; SAggregate W Q q] in
+  forall raw_clears,
+  srun DB W Q R qeqb exec apply raw_clears false (mksess DB W Q R db [] []) h <> cold_run DB W Q R exec apply db [] h /\
+  srun DB W Q R qeqb exec apply raw_clears false (mksess DB W Q R db [] []) h = [Some (exec db q); None; Some (exec db q)] /\
+  srun DB W Q R qeqb exec apply raw_clears true (mksess DB W Q R db [] []) h = cold_run DB W Q R exec apply db [] h.
+Proof.
+  intros DB W Q R qeqb exec apply db q w Hq Hne. cbv zeta. intro rc. cbn. rewrite Hq. cbn. repeat split.
   intro E. inversion E. congruence.
 Qed.
